@@ -69,4 +69,78 @@ theorem inside_preserves_outside (S : Schema) (doc doc' : Node) (a b : Nat) (st 
     exact node p hm.1 hm.2 (.inr (.inr ⟨n, v, rfl⟩))
   | docAttr n v => simp [insideNode] at hm
 
+/-- **boundary-inclusive form** (what the correspondence run monitors): a step whose range starts
+    after the node's open token and ends no later than just after its close token leaves every token
+    up to and including the open token, and every token after the node's closing, untouched — the edit
+    can rewrite the inside, re-close the node and add content after it, but never removes, splits or
+    merges the node or touches what surrounds it -/
+theorem within_preserves_outside (S : Schema) (doc doc' : Node) (a b : Nat) (st : Step)
+    (hb : b ≤ fsize doc.kids) (hm : withinNode a b st = true)
+    (hwf : ∀ f t gf gt sl i c, st = .replaceAround f t gf gt sl i c → sl.wf = true ∧ (i : Int) ≤ sl.size ∧ f ≤ gf ∧ gf ≤ gt ∧ gt ≤ t)
+    (h : S.apply st doc = .ok doc') :
+    (ftoks doc'.kids).take (a + 1) = (ftoks doc.kids).take (a + 1) ∧
+    (ftoks doc'.kids).drop (b + (fsize doc'.kids) - (fsize doc.kids)) = (ftoks doc.kids).drop b ∧
+    fsize doc.kids ≤ b + fsize doc'.kids := by
+  have hbl : b ≤ (ftoks doc.kids).length := by rw [ftoks_length]; exact hb
+  rw [← ftoks_length doc'.kids, ← ftoks_length doc.kids]
+  have node : ∀ pos, a < pos → pos + 1 ≤ b →
+      ((∃ m, st = .addNodeMark pos m) ∨ (∃ m, st = .removeNodeMark pos m) ∨ (∃ n v, st = .attr pos n v)) →
+      (ftoks doc'.kids).take (a + 1) = (ftoks doc.kids).take (a + 1) ∧
+      (ftoks doc'.kids).drop (b + (ftoks doc'.kids).length - (ftoks doc.kids).length)
+        = (ftoks doc.kids).drop b ∧
+      (ftoks doc.kids).length ≤ b + (ftoks doc'.kids).length := by
+    intro pos h1 h2 hst
+    obtain ⟨n, u, attrs, marks, hn, hu, hr, _⟩ := nodeStep_cases S doc doc' pos st hst h
+    obtain ⟨_, e, _⟩ := nodeRepl_toks S doc doc' n u pos attrs marks hn hu hr
+    exact splice_outside_le _ [u.headTok] _ pos (pos + 1) a b h1 (by omega) h2 hbl e
+  cases st with
+  | replace F T sl c =>
+    simp only [withinNode, Bool.and_eq_true, decide_eq_true_eq] at hm
+    obtain ⟨e, _⟩ := apply_replace_toks S doc doc' F T sl c h
+    exact splice_outside_le _ _ _ F T a b hm.1.1 hm.1.2 hm.2 hbl e
+  | replaceAround F T gf gt sl i c =>
+    simp only [withinNode, Bool.and_eq_true, decide_eq_true_eq] at hm
+    obtain ⟨w1, w2, w3⟩ := hwf F T gf gt sl i c rfl
+    obtain ⟨e, _⟩ := apply_replaceAround_toks S doc doc' F T gf gt sl i c w1 w2 w3 h
+    refine splice_outside_le _ (sl.toks.take i ++ ((ftoks doc.kids).drop gf).take (gt - gf) ++ sl.toks.drop i)
+      _ F T a b hm.1.1 hm.1.2 hm.2 hbl ?_
+    rw [e]; simp only [List.append_assoc]
+  | addMark F T m =>
+    simp only [withinNode, Bool.and_eq_true, decide_eq_true_eq] at hm
+    obtain ⟨e, _⟩ := apply_addMark_toks S doc doc' F T m h
+    rw [e]
+    refine pointwise_outside_le _ _ F T a b hm.1 hm.2 (mapIdxCtx_length _ _ _) ?_
+    intro j hj
+    exact mapIdxCtx_outside _ _ _ F T (fun i p tok hi => by rw [if_neg (fun hc => hi ⟨hc.1, hc.2.1⟩)]) j hj
+  | removeMark F T m =>
+    simp only [withinNode, Bool.and_eq_true, decide_eq_true_eq] at hm
+    obtain ⟨e, _⟩ := apply_removeMark_toks S doc doc' F T m h
+    rw [e]
+    refine pointwise_outside_le _ _ F T a b hm.1 hm.2 (mapIdxCtx_length _ _ _) ?_
+    intro j hj
+    exact mapIdxCtx_outside _ _ _ F T (fun i p tok hi => by rw [if_neg (fun hc => hi ⟨hc.1, hc.2.1⟩)]) j hj
+  | addNodeMark p m =>
+    simp only [withinNode, Bool.and_eq_true, decide_eq_true_eq] at hm
+    exact node p hm.1 hm.2 (.inl ⟨m, rfl⟩)
+  | removeNodeMark p m =>
+    simp only [withinNode, Bool.and_eq_true, decide_eq_true_eq] at hm
+    exact node p hm.1 hm.2 (.inr (.inl ⟨m, rfl⟩))
+  | attr p n v =>
+    simp only [withinNode, Bool.and_eq_true, decide_eq_true_eq] at hm
+    exact node p hm.1 hm.2 (.inr (.inr ⟨n, v, rfl⟩))
+  | docAttr n v => simp [withinNode] at hm
+
+/-- a pure insertion removes nothing: every old token is still there, in order (the inserted tokens
+    sit between `old[:F]` and `old[F:]`) -/
+theorem pure_insert_keeps_all (S : Schema) (doc doc' : Node) (a b : Nat) (st : Step)
+    (hm : pureInsertOutside a b st = true) (h : S.apply st doc = .ok doc') :
+    ∃ F ins, ftoks doc'.kids = (ftoks doc.kids).take F ++ ins ++ (ftoks doc.kids).drop F ∧ (F ≤ a ∨ b ≤ F) := by
+  cases st with
+  | replace F T sl s =>
+    simp only [pureInsertOutside, Bool.and_eq_true, Bool.or_eq_true, decide_eq_true_eq] at hm
+    obtain ⟨hFT, hout⟩ := hm
+    subst hFT
+    exact ⟨F, sl.toks, (apply_replace_toks S doc doc' F F sl s h).1, hout⟩
+  | _ => simp [pureInsertOutside] at hm
+
 end PM.C18
